@@ -33,7 +33,7 @@ fn budget(prop: &str, tier: &str) -> (u32, u32, u64) {
             if thorough {
                 (400000, 14, 14400)
             } else {
-                (30030, 14, 900)
+                (120120, 14, 900)
             }
         }
         "C11" => {
